@@ -227,35 +227,30 @@ impl FormMultipartData {
         Ok(boundary.to_string())
     }
 
-    // the boundary may be given with or without its leading hyphens (Content-Type parameter vs delimiter line),
-    // so leading hyphens are ignored on both sides; everything else has to be equal, the closing delimiter
-    // carries two more hyphens at the end
+    // the boundary may be given as the Content-Type parameter value or already as the delimiter (the parameter value with
+    // two hyphens in front): a delimiter line is the boundary as given, or two hyphens and the boundary as given;
+    // the closing delimiter carries two more hyphens at the end. nothing else is a delimiter
     fn is_boundary_line(line: &[u8], boundary: &str) -> bool {
         let mut end = line.len();
         while end > 0 && (line[end - 1] == b'\n' || line[end - 1] == b'\r') {
             end = end - 1;
         }
-        let mut start = 0;
-        while start < end && line[start] == b'-' {
-            start = start + 1;
-        }
-        let line_without_leading_hyphens = &line[start..end];
-        let boundary_without_leading_hyphens = boundary.trim_start_matches(SYMBOL.hyphen).as_bytes();
-
-        // a boundary made of hyphens only: the delimiter is a line of at least as many hyphens (an empty line is not)
-        if boundary_without_leading_hyphens.len() == 0 {
-            return end > 0 && start == end && end >= boundary.len();
+        let line = &line[..end];
+        let boundary = boundary.as_bytes();
+        if boundary.len() == 0 {
+            return false;
         }
 
-        if line_without_leading_hyphens == boundary_without_leading_hyphens {
+        let is_delimiter = |text: &[u8]| -> bool {
+            text == boundary || (text.len() == boundary.len() + 2 && &text[..2] == b"--" && &text[2..] == boundary)
+        };
+
+        if is_delimiter(line) {
             return true;
         }
 
-        let length = line_without_leading_hyphens.len();
-        let is_closing_delimiter = length >= 2
-            && &line_without_leading_hyphens[length - 2..] == b"--"
-            && &line_without_leading_hyphens[..length - 2] == boundary_without_leading_hyphens;
-        is_closing_delimiter
+        let length = line.len();
+        length >= 2 && &line[length - 2..] == b"--" && is_delimiter(&line[..length - 2])
     }
 
     #[allow(dead_code)]
